@@ -333,26 +333,10 @@ func (o OrderedCollectionPage) Equals(with Item) bool {
 			}
 			return nil
 		})
+		// current, first and last are compared by the collection comparison above: comparing them here again
+		// doubled the work at every level of a chain of pages
 		if w.PartOf != nil {
 			if !ItemsEqual(o.PartOf, w.PartOf) {
-				result = false
-				return nil
-			}
-		}
-		if w.Current != nil {
-			if !ItemsEqual(o.Current, w.Current) {
-				result = false
-				return nil
-			}
-		}
-		if w.First != nil {
-			if !ItemsEqual(o.First, w.First) {
-				result = false
-				return nil
-			}
-		}
-		if w.Last != nil {
-			if !ItemsEqual(o.Last, w.Last) {
 				result = false
 				return nil
 			}
